@@ -43,6 +43,22 @@ CHECKS = {
         "Trusted: mc/refpeg.py stack semantics (pest's stack_push/peek/pop/drop/match_peek_slice; restore-on-error for every abandoned attempt). Not covered: deeper INNER, implicit trivia in this family.",
         "5/C05",
     ),
+    "C06": (
+        "exploration", "engine",
+        "stateless exhaustive enumeration of executions (C01 families x every start position x 4 modes, plus bundled grammars); state invariants on every returned tree",
+        "Every successful parse of the C01 families (all operators, contexts, stack terminals, tags, modifiers, trivia) at every start position in all four modes, plus the bundled grammars on their example files, is walked through the public Pairs/Pair/Span/Stream API and "
+        "checked against the invariants the property lists (bounds, text, child order/containment, names, tags, tokens(), flatten(), single root, dump/dumps agreement).",
+        "Trusted: the invariant checker (mc/checks/c06.py). No model needed: the property is an invariant on outputs. Not covered: larger grammars, longer inputs.",
+        "5/C06",
+    ),
+    "C07": (
+        "exploration", "engine",
+        "stateless exhaustive enumeration of executions (C01 families x 4 modes); oracle: outcome type, repeatability, watchdog",
+        "Every (grammar, rule, input) of the C01 families - chosen because escaping exceptions live in uncommon paths such as an empty stack, zero iterations or input ending mid-construct - is parsed twice in each mode; "
+        "any outcome other than Pairs/PestParsingError, any difference between the two calls (tree, or furthest position and expected/unexpected sets) and any call exceeding the watchdog is a violation.",
+        "Trusted: CPython. Termination is only checked up to a 20 s watchdog; recursion depth is bounded by construction (one recursive template, inputs <= 5).",
+        "5/C07",
+    ),
     "C09": (
         "model_checking", "bfs",
         "explicit-state BFS over the real Stack / SnapshottingInt / ParserState objects in lock-step with a full-copy reference model",
@@ -52,6 +68,14 @@ CHECKS = {
         "Trusted: the 40-line full-copy reference; CPython; value-renaming symmetry (the code never inspects values). Not covered: histories longer than the bound ('longer random ones').",
         "5/C09",
     ),
+    "C13": (
+        "exploration", "engine",
+        "stateless exhaustive enumeration of rejected executions (C01 families, alphabet + newline + non-ASCII, every start position, 4 modes); invariants on the exception",
+        "Every rejected (grammar, input, start position) is inspected: furthest_pos in range (or -1), expected/unexpected keys are grammar rules or built-ins, str()/detailed_message()/expected()/expected_labels() render, "
+        "and the line:column and source line shown - and error_context() - are those of furthest_pos computed by counting newlines. Failures at offset 0, at end of input, on empty lines, after a trailing newline and inside predicates all occur in the enumerated space.",
+        "Trusted: newline arithmetic oracle; regex extraction of L:C from the rendered message. Not covered: line breaks other than \\n.",
+        "5/C13",
+    ),
     "C14": (
         "exploration", "enum",
         "exhaustive enumeration of all texts over a 3-4 symbol alphabet (incl. newline) x all offsets x all spans against integer arithmetic on the text",
@@ -59,6 +83,14 @@ CHECKS = {
         "The domain is finite and fully enumerated, which is the exhaustive half of the property's quantifier.",
         "Trusted: str.count/rfind arithmetic oracle. Not covered: texts longer than the bound, the 'sampled long and non-ASCII texts' clause, line breaks other than \\n.",
         "5/C14",
+    ),
+    "C16": (
+        "exploration", "engine",
+        "stateless exhaustive enumeration of (grammar x text x every start position x 4 modes); metamorphic oracle parse(text, k) == shift(parse(text[k:]), k)",
+        "SOI-free members of the C01 families, extended with regex-backed terminals (ASCII_HEX_DIGIT, a squashable choice, (!X ~ ANY)*), are parsed at every k in 0..len and on the suffix; trees and furthest_pos must coincide after shifting. "
+        "A regex anchored or searched from the wrong place, a lookbehind into text before start_pos, or a position computed from 0 shows as a difference.",
+        "Trusted: CPython. Not covered: larger grammars, longer texts.",
+        "5/C16",
     ),
 }
 
